@@ -17,6 +17,10 @@ long tree_fn(long node, long poison)
   return body ? body(node, poison, LIBID) : -1;
 }
 int lib_id(void) { return LIBID; }
+/* exported state and an exported helper used by the functions below: each library uses ITS OWN
+   (a loader that merges the libraries' symbol scopes would bind the second library to the first's) */
+int guest_calls = 0;
+int guest_bump(void) { return ++guest_calls; }
 typedef void (*ran_t)(int, const char*);
 int n1(int x)
 {
@@ -27,10 +31,11 @@ int n1(int x)
     ran = (ran_t)dlsym(RTLD_DEFAULT, "harness_ran");
     looked = 1;
   }
+  guest_bump();
   if (ran) {
-    ran(LIBID, "n1");
+    ran(lib_id(), "n1");
   }
-  return x + LIBID;
+  return x + lib_id();
 }
 /* call an entry point the library was given (callback trampolines are host functions) */
 int callA_raw(unsigned long long entry, int arg) { return ((int (*)(int))entry)(arg); }
